@@ -3,6 +3,7 @@ package broker
 import (
 	"fmt"
 	"runtime"
+	"sync"
 	"testing"
 	"time"
 
@@ -135,6 +136,32 @@ func TestC01(t *testing.T) {
 			}
 		}
 		_ = npipes
+		// concurrent Sends on the same registry: every Send's invocations (told apart by its unique
+		// provenance) must decompose on their own, whatever the interleaving of the fan-outs
+		if c%4 == 0 {
+			nconc := cr.Range(2, 6)
+			obs := make([]*SendObs, nconc)
+			var wg sync.WaitGroup
+			bar := rt.NewBarrier(nconc)
+			for k := 0; k < nconc; k++ {
+				ty := rt.Pick(cr, a.Types)
+				yr := cr.Fork()
+				wg.Add(1)
+				go func(k int) {
+					defer wg.Done()
+					bar.Wait()
+					obs[k] = w.DoSendConcurrent(ty, yr, 40)
+				}(k)
+			}
+			wg.Wait()
+			rt.WaitNoGoroutine(5*time.Second, "eventlogger.(*graph).process", "eventlogger.(*graph).doProcess")
+			for _, o := range obs {
+				o.Entries = w.Log.ForSend(o.SendID)
+				checkC01(run, w, o, ops, stop, stopAt)
+				run.Eval(fmt.Sprintf("conc|%v|%d", describeShape(o.Expected), nconc))
+				run.Add("concurrent_sends", 1)
+			}
+		}
 	}
 	_ = runtime.NumGoroutine
 }
